@@ -4,6 +4,7 @@ import (
 	"encoding/json"
 	"os"
 	"path/filepath"
+	"sort"
 	"strings"
 	"sync"
 )
@@ -408,5 +409,76 @@ func applyGraft(doc *JV, i, j int64) bool {
 		}
 	}
 	n.V.A = append(n.V.A, val)
+	return true
+}
+
+// ---------------------------------------------------------------------------
+// extension codes: every value a published extension defines
+
+var (
+	extDefMu    sync.Mutex
+	extDefCache map[string][]string
+)
+
+// extensionCodes maps each extension key published by any regime or addon to its codes.
+func extensionCodes() map[string][]string {
+	extDefMu.Lock()
+	defer extDefMu.Unlock()
+	if extDefCache != nil {
+		return extDefCache
+	}
+	m := map[string][]string{}
+	for _, pat := range []string{"data/regimes/*.json", "data/addons/*.json"} {
+		files, _ := filepath.Glob(filepath.Join(pubRepo, pat))
+		sort.Strings(files)
+		for _, f := range files {
+			var d struct {
+				Extensions []struct {
+					Key    string `json:"key"`
+					Values []struct {
+						Code string `json:"code"`
+					} `json:"values"`
+				} `json:"extensions"`
+			}
+			if b, err := os.ReadFile(f); err == nil && json.Unmarshal(b, &d) == nil {
+				for _, e := range d.Extensions {
+					for _, v := range e.Values {
+						m[e.Key] = append(m[e.Key], v.Code)
+					}
+				}
+			}
+		}
+	}
+	extDefCache = m
+	return m
+}
+
+// applyExtCode gives one extension entry of the document another of the codes its definition lists.
+func applyExtCode(doc *JV, i, j int64) bool {
+	defs := extensionCodes()
+	type slot struct {
+		obj *JV
+		key string
+	}
+	var slots []slot
+	for _, n := range Walk(doc, "") {
+		if n.V.K == 'o' && n.Key == "ext" {
+			for _, m := range n.V.M {
+				if len(defs[m.Key]) > 1 {
+					slots = append(slots, slot{n.V, m.Key})
+				}
+			}
+		}
+	}
+	if len(slots) == 0 {
+		return false
+	}
+	sl := slots[int(i)%len(slots)]
+	codes := defs[sl.key]
+	c := codes[int(j)%len(codes)]
+	if sl.obj.Get(sl.key).Str() == c {
+		return false
+	}
+	sl.obj.Set(sl.key, JStr(c))
 	return true
 }
